@@ -2,6 +2,7 @@
 #include "common/verif.hpp"
 #include <frg/rbtree.hpp>
 #include <optional>
+#include <functional>
 #include <vector>
 #include <algorithm>
 #include <numeric>
@@ -14,6 +15,8 @@ struct Node {
 	int id = 0;
 	size_t agg_size = 0; // maintained by SizeAgg (subtree size)
 	frg::rbtree_hook hook;
+	friend bool operator<(const Node &a, const Node &b) { return a.key < b.key; }
+	friend bool operator>(const Node &a, const Node &b) { return a.key > b.key; }
 };
 // The comparator carries state (a direction): the tree has to keep the comparator object it was given (or its default state)
 // and order by it. State that is neither +1 nor -1 means the tree lost or never initialised its comparator.
@@ -26,6 +29,16 @@ struct Less {
 	int operator()(const Node &a, const Node &b) const { if(dir != 1 && dir != -1) g_less_bad_state++; return (dir < 0 ? a.key > b.key : a.key < b.key) ? 4 : 0; } // (truthy, but not 1: a comparator is used by its truth value)
 };
 template<typename T> static constexpr bool takes_comparator = std::is_constructible_v<T, Less>;
+// Other comparator *types* a user instantiates the tree with: the transparent standard functors (callable with anything that has
+// < or >, pointers included), a generic functor, a plain function pointer (a default-constructed one would be null: always passed).
+struct GenericLess { template<typename A, typename B> bool operator()(const A &a, const B &b) const { return a < b; } };
+static bool fn_less(const Node &a, const Node &b) { return a.key < b.key; }
+using FnLess = bool (*)(const Node &, const Node &);
+using TransparentTree = frg::rbtree<Node, &Node::hook, std::less<>>;
+using TransparentGreaterTree = frg::rbtree<Node, &Node::hook, std::greater<>>;
+using GenericTree = frg::rbtree<Node, &Node::hook, GenericLess>;
+using FnTree = frg::rbtree<Node, &Node::hook, FnLess>;
+template<typename T> static constexpr int fixed_dir = std::is_same_v<T, TransparentGreaterTree> ? -1 : 1;
 
 struct SizeAgg;
 using Tree = frg::rbtree<Node, &Node::hook, Less, SizeAgg>;
@@ -156,7 +169,9 @@ static void exhaustive_perm(const char *mode, int n, int keyvariant, bool reinse
 			g_dir = (takes_comparator<T> && my % 3 == 2) ? -1 : 1; g_less_bad_state = 0;
 			bool completed = guarded("C06", [&] {
 				std::optional<T> tree_box;
-				if constexpr (takes_comparator<T>) { if(g_dir < 0) tree_box.emplace(Less(-1)); else tree_box.emplace(); } else tree_box.emplace();
+				if constexpr (takes_comparator<T>) { if(g_dir < 0) tree_box.emplace(Less(-1)); else tree_box.emplace(); }
+				else if constexpr (std::is_constructible_v<T, FnLess>) tree_box.emplace(&fn_less);
+				else tree_box.emplace();
 				T &tree = *tree_box;
 				std::vector<Node *> ref;
 				for(int i = 0; i < n && !g_bad; i++) {
@@ -251,10 +266,12 @@ static void random_histories(const char *mode, uint64_t ncases, size_t maxn, uns
 			out.push_back(&pool[i]);
 		}
 		case_detail("N=%zu stream=%d seed=%llu", N, stream, (unsigned long long)cs);
-		g_dir = (takes_comparator<T> && c % 3 == 2) ? -1 : 1; g_less_bad_state = 0;
+		g_dir = takes_comparator<T> ? (c % 3 == 2 ? -1 : 1) : fixed_dir<T>; g_less_bad_state = 0;
 		bool completed = guarded("C06", [&] {
 			std::optional<T> tree_box;
-			if constexpr (takes_comparator<T>) { if(g_dir < 0) tree_box.emplace(Less(-1)); else tree_box.emplace(); } else tree_box.emplace();
+			if constexpr (takes_comparator<T>) { if(g_dir < 0) tree_box.emplace(Less(-1)); else tree_box.emplace(); }
+			else if constexpr (std::is_constructible_v<T, FnLess>) tree_box.emplace(&fn_less);
+			else tree_box.emplace();
 			T &tree = *tree_box;
 			int phase = 0;
 			for(unsigned i = 0; i < nops && !g_bad; i++) {
@@ -286,7 +303,8 @@ static void random_histories(const char *mode, uint64_t ncases, size_t maxn, uns
 		});
 		(void)completed;
 		if(g_less_bad_state) { fail("comparator-state", strf("the tree called its comparator %llu times with a state that is neither the one it was constructed with nor the default", (unsigned long long)g_less_bad_state)); g_less_bad_state = 0; }
-		if(g_dir < 0) count("histories_with_a_comparator_passed_to_the_constructor");
+		if(g_dir < 0 && takes_comparator<T>) count("histories_with_a_comparator_passed_to_the_constructor");
+		if(!takes_comparator<T> && !std::is_same_v<T, OrderTree>) count("histories_with_a_standard_transparent_generic_or_function_pointer_comparator");
 		g_dir = 1;
 		count("random_histories");
 	}
@@ -307,6 +325,12 @@ int main(int argc, char **argv) {
 	random_histories<Tree, true>("rand:small", scaled(150, 4000), 60, 400, 1);
 	random_histories<Tree, true>("rand:large", scaled(6, 200), t ? 20000 : 3000, t ? 60000 : 8000, 512);
 	random_histories<PlainTree, false>("rand:plain", scaled(30, 1000), 200, 1000, 8);
+	// node pools are std::vector<Node>: addresses ascend with the id, keys do not (descending/organ-pipe/random streams), so an
+	// order by address instead of by key is visible
+	random_histories<TransparentTree, false>("rand:std-less-void", scaled(12, 300), 120, 500, 4);
+	random_histories<TransparentGreaterTree, false>("rand:std-greater-void", scaled(12, 300), 120, 500, 4);
+	random_histories<GenericTree, false>("rand:generic-functor", scaled(12, 300), 120, 500, 4);
+	random_histories<FnTree, false>("rand:function-pointer", scaled(12, 300), 120, 500, 4);
 	sample("exh:distinct: every insertion order of 6 ranked keys, full check after each insert, then every removal order with full check + hook-reset check after each remove");
 	sample("rand:large: up to 3000 (thorough 20000) nodes, key streams ascending/descending/organ-pipe/4-valued/random, removal targets root/first/last/random, full check every 512 ops");
 	return finish();
